@@ -110,7 +110,7 @@ def pidList? (s : String) : Option (List Nat) := natList? s
 def parsePeers (s : String) : List (String × String) :=
   if s == "-" || s == "" then [] else
   (splitOnChar s ';').filterMap (fun e => match splitOnChar e '^' with
-    | [n, c] => some (unword n, unword c)
+    | [n, c] => some (unword n, (unword c).replace "~" ":")   -- `~` stands for `:` inside a descriptor
     | _ => none)
 
 def showPeers (l : List (String × String)) : String :=
@@ -212,6 +212,10 @@ structure St where
   connects : Nat := 0
   anyGood : Bool := false
   anyRelayed : Bool := false
+  /-- oracle: how many dials of the advertised listener the `NodeSessions` frames sent so far may
+  cause at most: entries naming a peer that is not this node and not a peer the harness is
+  authenticated as (by name or connection string), sent on an authenticated session in transitive mode -/
+  oAllowedDials : Nat := 0
   /-- oracle: every digest the node itself has sent so far (in its `ChallengeReply` / `ChallengeAck`
   frames, any session): presenting one of these proves nothing about knowing the cookie -/
   emitted : List String := []
@@ -536,7 +540,8 @@ def step (st : St) (op0 impl : String) : St × StepOut :=
     -- oracle: the node dials a peer-supplied address only if some session presented the right digest
     let orc := match impl.toNat? with
       | some n => if n > 0 && !st.anyGood then
-          [if st.anyRelayed then "authenticated-by-reflected-digest" else "effect-before-authentication"] else []
+          [if st.anyRelayed then "authenticated-by-reflected-digest" else "effect-before-authentication"]
+        else if n > st.oAllowedDials then ["transitive-dial-of-known-peer-or-self"] else []
       | none => []
     (st, { model := toString st.connects, oracle := orc, nontrivial := st.connects > 0 })
   | "open" :: k :: side :: _ =>
@@ -585,8 +590,22 @@ def step (st : St) (op0 impl : String) : St × StepOut :=
       let (sesO, orc1) := oracleOn ses' (some fr) tbl rem impl st.emitted
       let orc := orc1 ++ violationOracle ses fr impl ++ enumOracle ((st.set (k.toNat?.getD 0) sesO).sessions) impl
       let nt := eff.any (·.gated) || s'.stopped
-      let nc := (eff.filter (fun e => match e with | .connect _ => true | _ => false)).length
-      ({ st.set (k.toNat?.getD 0) sesO with connects := st.connects + nc, emitted := st.emitted ++ implDigests impl },
+      -- dials of the advertised loopback listener (other addresses are not dialable and not observed)
+      let nc := (eff.filter (fun e => match e with | .connect a => a.startsWith "127.0.0.1:" | _ => false)).length
+      -- oracle bookkeeping for the transitive dial (from the harness' frames and the oracle's own
+      -- notion of which sessions proved the cookie and are still up)
+      let stO := st.set (k.toNat?.getD 0) sesO
+      let allowed := match fr with
+        | .control (.nodeSessions peers) =>
+          if ses.cfg.transitive && (sesO.oGood || sesO.oRelayed) && !sesO.oClosed then
+            let known := stO.sessions.filterMap (fun (_, s) => if (s.oGood || s.oRelayed) && !s.oClosed then s.st.name else none)
+            let ks := known.flatMap (fun n => [n.1, n.2])
+            (peers.filter (fun p => p.2.startsWith "127.0.0.1:" &&
+              !(ks.contains p.1 || ks.contains p.2 || p.1 == ses.cfg.thisName || p.2 == ses.cfg.thisConn))).length
+          else 0
+        | _ => 0
+      ({ stO with connects := st.connects + nc, emitted := st.emitted ++ implDigests impl,
+                  oAllowedDials := st.oAllowedDials + allowed },
        { model := showObs ses' eff impl, oracle := orc, nontrivial := nt })
     | _, _ => (st, { model := "bad-op" })
   | "batch" :: k :: fs :: _ =>
